@@ -5,6 +5,7 @@ package fracmanager
 // are not passed through the instrumenter.
 
 import (
+	"github.com/ozontech/seq-db/cache"
 	"github.com/ozontech/seq-db/verifsim"
 )
 
@@ -48,4 +49,9 @@ func (fm *FracManager) VerifStates() []string {
 		verifsim.Unlock(p.useMu.RUnlock)
 	}
 	return out
+}
+
+// VerifCleaners returns the cleaners a maintainer built from the configured sizes, with their labels.
+func (cm *CacheMaintainer) VerifCleaners() ([]*cache.Cleaner, []string) {
+	return cm.cleaners, cm.cleanerLabels
 }
